@@ -491,7 +491,7 @@ class BasicContiguousVector<cntgs::Options<Option...>, Parameter...>
             }
             else
             {
-                if (other.memory_consumption() > memory_consumption())
+                if (!memory_ || other.memory_consumption() > memory_consumption())
                 {
                     // allocate memory first because it might throw
                     StorageType new_memory{other.memory_consumption(), get_allocator()};
